@@ -161,6 +161,8 @@ CanExport(k, fmt) ==
     /\ (fmt \in PrivFmts => k.priv)
     /\ (fmt \in {"hex01", "bytes01"} => k.compressed)
     /\ (fmt \in ExtFmts => k.hd /\ Defined(Cfg(k)))
+    \* the dictionary view of an HD key contains its extended keys and its address: it exists only where those do
+    /\ (fmt \in {"d_pubhex", "d_pubhex_u", "d_px", "d_py"} /\ k.hd => Defined(Cfg(k)) /\ (k.compressed \/ k.wt = "legacy"))
 
 (* ------------------------------------------------------------------------ *)
 (* Key objects have a history: calls made on the same object before an       *)
